@@ -218,6 +218,17 @@ let exec (c : sx) : sx = match c with
     L (List.map of_bool [pl_ok f; ctls_state f; ctl_state f; ctl_path f; ltl_path f; ltl_state f; arity_ok f])
   | L (A "mk" :: l :: o :: args) -> of_result of_obj (mk (to_lang l) (to_op o) (List.map to_obj args))
   | L [A "cast"; l; o] -> of_result of_obj (cast_to (to_lang l) (to_obj o))
+  | L [A "lattice"] ->
+    (* the model's class-lattice tables, for the introspective comparison with the live classes *)
+    let langs = [PL; CTLS; CTL; LTL] in
+    let ops = [OBool true; OAtom []; ONot; OOr; OAnd; OImp; OX; OF; OG; OU; OR; OA; OE] in
+    let opname = function
+      | OBool _ -> "Bool" | OAtom _ -> "AtomicProposition" | ONot -> "Not" | OOr -> "Or" | OAnd -> "And"
+      | OImp -> "Imply" | OX -> "X" | OF -> "F" | OG -> "G" | OU -> "U" | OR -> "R" | OA -> "A" | OE -> "E" in
+    let tyname = function TFormula -> "Formula" | TPath -> "PathFormula" | TState -> "StateFormula" in
+    L (List.concat_map (fun l -> List.map (fun o ->
+        L [of_lang l; A (opname o); of_bool (in_alphabet l o);
+           of_bool (isinst l o TPath); of_bool (isinst l o TState); A (tyname (required l o))]) ops) langs)
   | L [A "print"; l; f] -> of_str (print (to_lang l) (to_form f))
   | L [A "parse"; l; s] -> of_result of_form (parse_string (to_lang l) (to_str s))
   | L [A "lex"; s] -> of_option (fun ts -> L (List.map of_ptok ts)) (lex (to_str s))
